@@ -1,6 +1,6 @@
 \* C05 as found (defect F2; with_completion as in the unrepaired code), otherwise as quick: every sequence (any length) of the 11 guard operations over 1 alternative
 \* module / name / property value; default completions with level / panic level each absent or
-\* present: new{rec1,dflt,dfltl,dfltp,dfltL} with{rec2,dfltl} complete_with{rec3,dfltp,ok,err};
+\* present: new{rec1,dflt,dfltl,dfltp,dfltL} with{rec2,dfltl} complete_with{rec3,dfltp,ok,err} + completion forms {recRef,recSS,fromE,empty};
 \* macro result completions with ok_lvl / err_lvl / err-mapper each absent or present
 \* {ok,okD,err,errD,errM,errMD}; 4 clock scripts (forwards, backwards, no reading at start / at
 \* completion), both filter verdicts, forms none/plain/setup/result{,_o,_e}/resultM{,_m}/guard/
@@ -12,7 +12,7 @@ CONSTANTS
     PropVals = {1}
     NewComps = {"rec1", "dflt", "dfltl", "dfltp", "dfltL"}
     WithComps = {"rec2", "dfltl"}
-    CwComps = {"rec3", "dfltp", "ok", "okD", "err", "errD", "errM", "errMD"}
+    CwComps = {"rec3", "dfltp", "ok", "okD", "err", "errD", "errM", "errMD", "recRef", "recSS", "fromE", "empty"}
     Scripts <- MC_ScriptsQuick
     Forms = {"none", "plain", "setup", "result", "result_o", "result_e", "resultM", "resultM_m", "guard", "newspan"}
     Frames = {"in", "out"}
